@@ -101,6 +101,17 @@ def thresholdSpec (k : Kind) (px t mx : Int) : Int :=
   | .truncZeroReg => if px > t then px else 0
   | .truncZeroInv => if px > t then 0 else px
 
+/-! ### views with an arbitrary memory geometry (per-pixel algorithms: `threshold_impl`, `adaptive_impl`) -/
+
+/-- the pixels of a w×h view in the order the row loops visit them -/
+def gridPts (w h : Nat) : List (Nat × Nat) :=
+  (List.range h).flatMap fun (y : Nat) => (List.range w).map fun (x : Nat) => (x, y)
+
+/-- `for y, for x: dst(x, y) = value(x, y)` on a memory `mem` (cell → channel value) for a destination view whose pixel (x, y)
+    lives in cell `addr (x, y)`: whole image, sub-view of a larger image, padded rows, flipped, stepped … are all just different `addr` -/
+def writeCells (addr : Nat × Nat → Nat) (vals : Nat × Nat → Int) (pts : List (Nat × Nat)) (mem : Nat → Int) : Nat → Int :=
+  pts.foldl (fun m p => fun a => if a = addr p then vals p else m a) mem
+
 /-! ### threshold_adaptive -/
 
 /-- the comparison functor `threshold_adaptive` hands to `adaptive_impl` (generated), by source = result channel type -/
